@@ -180,9 +180,31 @@ def rs_unpack(resp, hist) -> List[Dict[str, Any]]:
 
 def judge(impl: str, cfg, hist, obs: List[Dict[str, Any]], vb: VB, read_scans: bool, cap: int,
           release_clears: bool = False) -> None:
+    """Judged under both admissible origins of the release interval (see RefKeyboard.release_restarts): a history is a
+    violation only if it contradicts the reference under both; the report is the one of the default policy."""
+    first = VB()
+    _judge(impl, cfg, hist, obs, first, read_scans, cap, release_clears, False)
+    if not first.d:
+        return
+    if any(e[0] == "release" for e in hist):
+        second = VB()
+        _judge(impl, cfg, hist, obs, second, read_scans, cap, release_clears, True)
+        if not second.d:
+            return
+    for sig, (cnt, wl) in first.d.items():
+        ent = vb.d.setdefault(sig, [0, []])
+        ent[0] += cnt
+        for w in wl:
+            if len(ent[1]) < 3:
+                ent[1].append(w)
+
+
+def _judge(impl: str, cfg, hist, obs: List[Dict[str, Any]], vb: VB, read_scans: bool, cap: int,
+           release_clears: bool, release_restarts: bool) -> None:
     ah, pth, rth, dly, itv = cfg
     # the strobe registers start with whatever the implementation reports (Rust: 0/0 for both polarities)
-    ref = RefKeyboard(KEYS, ah, pth, rth, dly, itv, init_strobe=(0, 0) if impl == "rust" else None)
+    ref = RefKeyboard(KEYS, ah, pth, rth, dly, itv, init_strobe=(0, 0) if impl == "rust" else None,
+                      release_restarts=release_restarts)
     wit = lambda: {"impl": impl, "cfg": list(cfg), "history": [list(e) for e in hist]}  # noqa: E731
     tag = f"{impl}/{'hi' if ah else 'lo'}"
     fifo_prev: List[int] = []
